@@ -444,7 +444,8 @@ def run(tier, seed, replay):
                     raise
                 except Exception as e:
                     if type(e).__name__ != "IntegratorException":
-                        v(f"raises:unnormalised:{method}", f"{type(e).__name__}: {e}"[:200])
+                        v(f"raises:unnormalised:{method}", f"{type(e).__name__}: {e}"[:200],
+                          {"method": method, "scale": str(scale_), "H": [[str(x) for x in row] for row in H.full()], "psi0": [str(x) for x in psi0.full().ravel()], "tlist": [float(x) for x in tl], "options": {k_: str(x_) for k_, x_ in o.items()}})
                     continue
                 rep.evaluations += 1
                 rep.count("unnormalised/" + method)
@@ -452,6 +453,27 @@ def run(tier, seed, replay):
                 if err_ > 2e-5 * abs(scale_):
                     v(f"exact:unnormalised:{method}", f"sesolve({method}) of a ket of norm {abs(scale_):g} differs from exp(-iHt) psi0 by {err_:.2e}", {"method": method, "scale": str(scale_), "dim": d})
                     break
+        # Krylov: a Hamiltonian whose Krylov space closes after exactly krylov_dim vectors (rank-one H, krylov_dim = 2):
+        # the projected evolution is exact, nothing has to be refused
+        if si == 0:
+            for Ur_ in (qutip.qeye(3), qutip.rand_unitary(3, seed=int(rng.integers(1 << 30)))):
+                Hr_ = Ur_ * qutip.Qobj(np.diag([float(rng.uniform(0.2, 1.5)), 0.0, 0.0])) * Ur_.dag()
+                pk_ = qutip.rand_ket(3, seed=int(rng.integers(1 << 30)))
+                try:
+                    with warnings.catch_warnings():
+                        warnings.simplefilter("ignore")
+                        with core.time_limit(120):
+                            gk_ = qutip.sesolve(Hr_, pk_, tl, options={"method": "krylov", "krylov_dim": 2, "progress_bar": "", "store_states": True}).states
+                    rep.evaluations += 1
+                    rep.count("krylov-closing-subspace")
+                    ek_ = max(np.abs(a.full() - sla.expm(-1j * Hr_.full() * t) @ pk_.full()).max() for a, t in zip(gk_, tl))
+                    if ek_ > 2e-5:
+                        v("exact:krylov-closing-subspace", f"sesolve(krylov, krylov_dim=2) for a rank-one Hamiltonian differs from exp(-iHt) psi0 by {ek_:.2e}", {"H": [[str(x) for x in row] for row in Hr_.full()], "psi0": [str(x) for x in pk_.full().ravel()]})
+                except core.CaseTimeout:
+                    raise
+                except Exception as e:
+                    v("raises:krylov-closing-subspace", f"sesolve(krylov, krylov_dim=2) for a rank-one 3x3 Hamiltonian (the Krylov space closes after two vectors): {type(e).__name__}: {e}"[:300],
+                      {"H": [[str(x) for x in row] for row in Hr_.full()], "psi0": [str(x) for x in pk_.full().ravel()], "tlist": [float(x) for x in tl]})
         # one solver object propagating operators handed over in different memory orders and storage formats, one after the
         # other: each answer is exp(-iHt) times the operator it was given
         Hc_ = H + 0.3j * (qutip.Qobj(np.triu(H.full(), 1)) - qutip.Qobj(np.triu(H.full(), 1)).dag())
